@@ -81,6 +81,13 @@ def gen_numeric_table(rng):
 def gen_case(rng, i, neutral_only=False):
     A, nkeys, nvals = gen_numeric_table(rng)
     width = nkeys + nvals
+    opt_col = None
+    if rng.random() < 0.3:
+        # one more column that also holds None (NULL): it is only ever counted, collected or picked (COUNT / ARRAY_AGG / ANY_VALUE arguments)
+        for r in A:
+            r.append(rng.choice(['x', 'y', None, None]))
+        opt_col = width
+        width += 1
     a_names = None
     if rng.random() < 0.4:
         a_names = gq.gen_names(rng, width)
@@ -116,7 +123,7 @@ def gen_case(rng, i, neutral_only=False):
             func = rng.choice(list(SPELL))
             sp = rng.choice(SPELL[func])
             if func == 'COUNT':
-                arg = rng.choice(['*', ['int', 1], fld(rng.randrange(width))])
+                arg = rng.choice(['*', ['int', 1], fld(rng.randrange(width))] + ([fld(opt_col), fld(opt_col)] if opt_col is not None else []))
             elif func in NUMERIC:
                 vj = nkeys + rng.randrange(nvals)
                 arg = fld(vj)
@@ -124,6 +131,8 @@ def gen_case(rng, i, neutral_only=False):
                     arg = ['arith', '*', ['float_of', fld(vj)], ['int', 10]] if rng.random() < 0.5 else ['arith', '+', ['len', fld(0)], ['NR']]
             else:
                 arg = fld(rng.randrange(width)) if rng.random() < 0.8 else ['concat', fld(0), ['str', '!']]
+                if opt_col is not None and rng.random() < 0.4:
+                    arg = fld(opt_col)
             items.append({'kind': 'agg', 'func': func, 'spelling': sp, 'arg': arg})
         if rng.random() < 0.15:
             items[-1]['alias'] = g.alias()
